@@ -498,7 +498,15 @@ ssize_t write(int fd, const void *buf, size_t n)
     ev_begin(&e, "write"); ev_int(&e, "fd", fd); ev_fdpath(&e, fd); ev_int(&e, "off", off); ev_int(&e, "len", n);
     ev_hex(&e, "data", buf, n);
     if (k == 1 && n <= 16) {
+      /* previous content of an overwritten range (the descriptor is usually write-only) */
       unsigned char old[16]; ssize_t o = pread(fd, old, n, off);
+      if (o <= 0) {
+        char l[64]; int rfd;
+        snprintf(l, sizeof l, "/proc/self/fd/%d", fd);
+        rfd = r_open(l, O_RDONLY | O_NOATIME);
+        if (rfd < 0) rfd = r_open(l, O_RDONLY);
+        if (rfd >= 0) { o = pread(rfd, old, n, off); r_close(rfd); }
+      }
       if (o > 0) ev_hex(&e, "old", old, o);
     }
     pre('m', &e, &d);
